@@ -57,6 +57,9 @@ Definition zLASTF := 10. (* device whose ejected ball is being booked as lost (o
 Definition zLOOSE := 11. (* balls physically loose on the playfield *)
 Definition zTR := 12.    (* balls physically in transit between places *)
 Definition zTOT := 13.   (* balls that physically exist *)
+Definition zXS := 14.    (* DEFECT (known finding): available balls booked to the playfield by lost_incoming_ball's
+                            "Failed to restore the path" branch without taking one away anywhere; never closed *)
+Definition zILT := 15.   (* device whose lost_incoming_ball call is being booked (or NONE) *)
 
 Record st := mk {
   f : Z -> Z -> Z;          (* field -> device -> value *)
@@ -256,17 +259,25 @@ Definition step (c : cfg) (x : st) (l : label) : option st :=
   | LAvailDec t => guard (isdev c t) (addz (addf x fA t (-1)) zW 1)
   | LMissingToPf =>
       let s := z x zLASTF in
-      guard (isdev c s && (1 <=? z x zW))
-            (setz (addf (addz (addz (addz x zW (-1)) zPA 1) zB 1) fCF s 1) zLASTF NONE)
+      if 1 <=? z x zW then
+        guard (isdev c s)
+              (setz (setz (addf (addz (addz (addz x zW (-1)) zPA 1) zB 1) fCF s 1) zLASTF NONE) zILT NONE)
+      else
+        (* lost_incoming_ball at a device t that has neither a current eject to cancel nor an available ball of its own
+           ("No eject and no available_balls. Path went nowhere." / "Failed to restore the path"): add_missing_balls(1)
+           alone.  Modelled faithfully: the available balls now sum to known + zXS *)
+        let t := z x zILT in
+        guard (isdev c s && isdev c t && (f x fA t <=? 0))
+              (setz (setz (addz (addf (addz (addz x zPA 1) zB 1) fCF s 1) zXS 1) zLASTF NONE) zILT NONE)
   | LCancelMissing =>
       let s := z x zLASTF in
-      guard (isdev c s) (setz (addf (addz x zB 1) fCF s 1) zLASTF NONE)
+      guard (isdev c s) (setz (setz (addf (addz x zB 1) fCF s 1) zLASTF NONE) zILT NONE)
   | LLost d =>
       if negb (isdev c d) then None else
       let x1 := addz (addz (addf x fA d (-1)) zPA 1) zB 1 in
       if 1 <=? f x fM d then Some (addf x1 fM d (-1))
       else let s := z x zLASTF in
-           if isdev c s then Some (setz (addf x1 fCF s 1) zLASTF NONE)
+           if isdev c s then Some (setz (setz (addf x1 fCF s 1) zLASTF NONE) zILT NONE)
            else Some (addf x1 fM d (-1))   (* double eject: _eject_ball books lost_idle_ball BEFORE it sets the
                                               recounted value, so the pending count goes negative first *)
   | LFoundNew => Some (addz (addz (addz x zK 1) zB 1) zPA 1)
@@ -286,7 +297,7 @@ Definition step (c : cfg) (x : st) (l : label) : option st :=
   | LIncTimeout t s =>
       guard (isdev c t && isdev c s && memz s (inc x t)) (addf (setinc x t (remove1 s (inc x t))) fLI t 1)
   | LIncLost t s =>
-      guard (isdev c t && isdev c s && (1 <=? f x fLI t)) (setz (addf x fLI t (-1)) zLASTF s)
+      guard (isdev c t && isdev c s && (1 <=? f x fLI t)) (setz (setz (addf x fLI t (-1)) zLASTF s) zILT t)
   | SLeave s t =>
       if s =? PF then
         guard (isdev c t && (1 <=? z x zLOOSE)) (addz (addz x zLOOSE (-1)) zTR 1)
@@ -340,7 +351,7 @@ Definition init (c : cfg) (ds : list (list Z)) (pf : list Z) : option st :=
   | [b; pa; r; k; loose] =>
       let x := init_devs empty ds in
       let x := setz (setz (setz (setz (setz (setz x zB b) zPA pa) zR r) zK k) zLOOSE loose) zLASTF NONE in
-      let x := setz x zTOT (sumf (f x fPH) (devs c) + loose) in
+      let x := setz (setz x zILT NONE) zTOT (sumf (f x fPH) (devs c) + loose) in
       guard ((sumf (f x fC) (devs c) + b =? k) && (sumf (f x fA) (devs c) + pa =? k)
              && forallb (fun d => (0 <=? f x fC d) && (f x fC d <=? cap c d) && negb (blfc (f x fS d))) (devs c)) x
   | _ => None
